@@ -932,22 +932,14 @@ type blockChange struct {
 // mutex-guarded label index mutation routine.
 func (d *Data) aggregateBlockChanges(v dvid.VersionID, svmap *VCache, ch <-chan blockChange) {
 	mappedVersions := svmap.getMappedVersionsDist(v)
-	// changes are kept per mapped label: a label's index must take every supervoxel mapped to it,
-	// including one with no voxels left in the index (all overwritten earlier) that is written again.
-	labelChanges := make(map[uint64]labels.SupervoxelChanges)
+	allChanges := make(labels.SupervoxelChanges)
 	var maxLabel uint64
 	for change := range ch {
 		for supervoxel, delta := range change.delta {
-			label, _ := svmap.mapLabel(supervoxel, mappedVersions)
-			svChanges, found := labelChanges[label]
-			if !found {
-				svChanges = make(labels.SupervoxelChanges)
-				labelChanges[label] = svChanges
-			}
-			blockChanges, found := svChanges[supervoxel]
+			blockChanges, found := allChanges[supervoxel]
 			if !found {
 				blockChanges = make(map[dvid.IZYXString]int32)
-				svChanges[supervoxel] = blockChanges
+				allChanges[supervoxel] = blockChanges
 			}
 			blockChanges[change.bcoord] += delta
 			if supervoxel > maxLabel {
@@ -961,6 +953,24 @@ func (d *Data) aggregateBlockChanges(v dvid.VersionID, svmap *VCache, ch <-chan 
 		}
 	}()
 	if d.IndexedLabels {
+		// The supervoxels are mapped to their labels and the labels' indices changed with body-level
+		// mutations locked out: a merge or cleave running in between would read an index before this
+		// change and store it back after, or move the supervoxel to a label other than the one changed.
+		d.bodyMu.Lock()
+		defer d.bodyMu.Unlock()
+
+		// changes are kept per mapped label: a label's index must take every supervoxel mapped to it,
+		// including one with no voxels left in the index (all overwritten earlier) that is written again.
+		labelChanges := make(map[uint64]labels.SupervoxelChanges)
+		for supervoxel, blockChanges := range allChanges {
+			label, _ := svmap.mapLabel(supervoxel, mappedVersions)
+			svChanges, found := labelChanges[label]
+			if !found {
+				svChanges = make(labels.SupervoxelChanges)
+				labelChanges[label] = svChanges
+			}
+			svChanges[supervoxel] = blockChanges
+		}
 		for label, svChanges := range labelChanges {
 			if err := ChangeLabelIndex(d, v, label, svChanges); err != nil {
 				dvid.Errorf("indexing label %d: %v\n", label, err)
